@@ -638,6 +638,15 @@ pub fn build(quick: bool) -> Check {
         families.push(Box::new(LargeRequests::new(&pow2_sizes(10..=23), 1)));
         families.push(Box::new(TwoLargeRequests::new(&[(MAXP + 10, MAXP + 10), (MAXP, MAXP), (70_000, 2 * MAXP + 3), (2 * MAXP + 3, MAXP + 1)])));
     }
+    {
+        use super::registry::RunOpts;
+        families.push(Box::new(super::soak::Soak {
+            label: "lock-step",
+            lens: super::soak::lens(quick),
+            mixes: super::soak::MIXES.to_vec(),
+            opts: vec![("lock-step client", RunOpts { lockstep: true, ..RunOpts::default() }), ("lock-step client, reads of at most 3 bytes, writes of at most 7", RunOpts { lockstep: true, uniform_read: 3, write_cap: 7, ..RunOpts::default() })],
+        }));
+    }
     Check {
         id: "C12",
         level: "model_checking",
@@ -647,6 +656,6 @@ pub fn build(quick: bool) -> Check {
         exhaustive: true,
         caps_hit: vec![],
         families,
-        required: vec!["mixed_pipelining", "fully_pipelined", "lock_step", "small_compositions", "reply_sizes", "large_requests_lock_step", "two_large_requests"],
+        required: vec!["soak_sessions", "mixed_pipelining", "fully_pipelined", "lock_step", "small_compositions", "reply_sizes", "large_requests_lock_step", "two_large_requests"],
     }
 }
